@@ -143,10 +143,77 @@ def _cancel(P, Q):
     return div(P), div(Q)
 
 
+class Den:
+    """factored denominator: {key: [normalised Poly, exponent]}; constants live in the numerator"""
+    __slots__ = ("f",)
+
+    def __init__(self, f=None):
+        self.f = f or {}
+
+    def copy(self):
+        return Den({k: [v[0], v[1]] for k, v in self.f.items()})
+
+    def is_one(self):
+        return not self.f
+
+    def poly(self):
+        r = Poly.const(1)
+        for pf, e in self.f.values():
+            for _ in range(e):
+                r = r * pf
+        return r
+
+    def odd_poly(self):
+        """product of the factors with odd exponent (same sign as the whole denominator)"""
+        r = Poly.const(1)
+        for pf, e in self.f.values():
+            if e % 2:
+                r = r * pf
+        return r
+
+    def add_factor(self, pf, e=1):
+        k = pf.key()
+        if k in self.f:
+            self.f[k][1] += e
+        else:
+            self.f[k] = [pf, e]
+
+
+def _normalise(P):
+    """P = lead * Phat with Phat's first coefficient 1; returns (lead, Phat)"""
+    items = sorted(P.t.items())
+    lead = items[0][1]
+    return lead, Poly({m: c / lead for m, c in P.t.items()})
+
+
+def _split_factors(P):
+    """non-zero polynomial -> (constant, [(normalised factor poly, exponent)]) using the common monomial and the cofactor"""
+    g = _mono_gcd(P)
+    facs = []
+    if g:
+        out = {}
+        for m, c in P.t.items():
+            d = dict(m)
+            for k, e in g.items():
+                d[k] -= e
+                if d[k] == 0:
+                    del d[k]
+            out[tuple(sorted(d.items()))] = c
+        P = Poly(out)
+        for k, e in g.items():
+            facs.append((Poly.var(k), e))
+    if P.is_const():
+        return P.const_value(), facs
+    lead, Ph = _normalise(P)
+    facs.append((Ph, 1))
+    return lead, facs
+
+
 class Normalizer:
     def __init__(self, defs=None):
         self.defs = defs  # id of abstract quotient variable -> (var, numerator term, denominator term); expanded when given
         self.atoms = {}  # key -> z3 term
+        self.sqrt_sq = None  # id of sqrt auxiliary variable y -> z3 term x with y*y == x on the path
         self.memo = {}
         self.divisors = {}  # poly key -> Poly (numerator polynomial of each divisor met)
 
@@ -156,7 +223,12 @@ class Normalizer:
         return Poly.var(k)
 
     def rf(self, e):
-        """z3 real term -> (P, Q)"""
+        """z3 real term -> (P, Q) with Q the expanded denominator"""
+        P, D = self.rff(e)
+        return P, D.poly()
+
+    def rff(self, e):
+        """z3 real term -> (P, Den)"""
         i = e.get_id()
         r = self.memo.get(i)
         if r is None:
@@ -164,8 +236,109 @@ class Normalizer:
             self.memo[i] = r
         return r[1]
 
+    # ---- arithmetic on (P, Den)
+    @staticmethod
+    def _cancel_mono(P, D):
+        """cancel atom factors of D against the common monomial of P"""
+        if P.is_zero() or D.is_one():
+            return P, D
+        g = _mono_gcd(P)
+        if not g:
+            return P, D
+        todo = {}
+        for k, e in g.items():
+            key = Poly.var(k).key()
+            if key in D.f:
+                todo[k] = min(e, D.f[key][1])
+        if not todo:
+            return P, D
+        D = D.copy()
+        out = {}
+        for m, c in P.t.items():
+            d = dict(m)
+            for k, e in todo.items():
+                d[k] -= e
+                if d[k] == 0:
+                    del d[k]
+            out[tuple(sorted(d.items()))] = c
+        for k, e in todo.items():
+            key = Poly.var(k).key()
+            D.f[key][1] -= e
+            if D.f[key][1] == 0:
+                del D.f[key]
+        return Poly(out), D
+
+    def _mul(self, P1, D1, P2, D2):
+        # cancel whole-polynomial factors: P2 against D1, P1 against D2
+        D1, D2 = D1.copy(), D2.copy()
+        for (Pa, Db) in ((P2, D1), (P1, D2)):
+            pass
+        scale = Fraction(1)
+        if not P2.is_zero() and not P2.is_const():
+            lead, Ph = _normalise(P2)
+            k = Ph.key()
+            if k in D1.f:
+                D1.f[k][1] -= 1
+                if D1.f[k][1] == 0:
+                    del D1.f[k]
+                P2 = Poly.const(lead)
+        if not P1.is_zero() and not P1.is_const():
+            lead, Ph = _normalise(P1)
+            k = Ph.key()
+            if k in D2.f:
+                D2.f[k][1] -= 1
+                if D2.f[k][1] == 0:
+                    del D2.f[k]
+                P1 = Poly.const(lead)
+        P = P1 * P2
+        D = D1
+        for pf, e in D2.f.values():
+            D.add_factor(pf, e)
+        return self._cancel_mono(P, D)
+
+    def _addf(self, P1, D1, P2, D2):
+        if P1.is_zero():
+            return P2, D2
+        if P2.is_zero():
+            return P1, D1
+        if D1.is_one() and D2.is_one():
+            return P1 + P2, D1
+        # least common multiple of the factored denominators
+        L = D1.copy()
+        m1 = Poly.const(1)  # multiplier for P1 = L/D1
+        m2 = Poly.const(1)  # multiplier for P2 = L/D2
+        for k, (pf, e) in D2.f.items():
+            e1 = D1.f[k][1] if k in D1.f else 0
+            if e > e1:
+                L.f[k] = [pf, e]
+                for _ in range(e - e1):
+                    m1 = m1 * pf
+        for k, (pf, e) in L.f.items():
+            e2 = D2.f[k][1] if k in D2.f else 0
+            for _ in range(e - e2):
+                m2 = m2 * pf
+        P = P1 * m1 + P2 * m2
+        if P.is_zero():
+            return P, Den()
+        return self._cancel_mono(P, L)
+
+    def _divide(self, P, D, P2, D2):
+        """(P/D) / (P2/D2)"""
+        c, facs = _split_factors(P2)
+        Dn = Den()
+        for pf, e in facs:
+            Dn.add_factor(pf, e)
+        # numerator of the reciprocal is D2's product, denominator is P2's factors
+        Pr = Poly.const(Fraction(1) / c)
+        R_P, R_D = Pr, Dn
+        # multiply by D2 (as numerator factors, cancelling where possible)
+        for pf, e in D2.f.values():
+            for _ in range(e):
+                R_P, R_D = self._mul(R_P, R_D, pf, Den())
+        return self._mul(P, D, R_P, R_D)
+
     def _rf(self, e):
-        one = Poly.const(1)
+        one = Den()
         if z3.is_rational_value(e):
             return Poly.const(Fraction(e.numerator_as_long(), e.denominator_as_long())), one
         if z3.is_int_value(e):
@@ -177,48 +350,84 @@ class Normalizer:
         if self.defs is not None and k == z3.Z3_OP_UNINTERPRETED and not ch:
             d = self.defs.get(e.get_id())
             if d is not None:
-                P, Q = self.rf(d[1])
-                P2, Q2 = self.rf(d[2])
-                return _cancel(P * Q2, Q * P2)
+                P, D = self.rff(d[1])
+                P2, D2 = self.rff(d[2])
+                return self._divide(P, D, P2, D2)
         if k == z3.Z3_OP_ADD:
-            P, Q = self.rf(ch[0])
+            P, D = self.rff(ch[0])
             for c in ch[1:]:
-                P2, Q2 = self.rf(c)
-                P, Q = self._add(P, Q, P2, Q2)
-            return P, Q
+                P2, D2 = self.rff(c)
+                P, D = self._addf(P, D, P2, D2)
+            return P, D
         if k == z3.Z3_OP_SUB:
-            P, Q = self.rf(ch[0])
+            P, D = self.rff(ch[0])
             for c in ch[1:]:
-                P2, Q2 = self.rf(c)
-                P, Q = self._add(P, Q, -P2, Q2)
-            return P, Q
+                P2, D2 = self.rff(c)
+                P, D = self._addf(P, D, -P2, D2)
+            return P, D
         if k == z3.Z3_OP_UMINUS:
-            P, Q = self.rf(ch[0])
-            return -P, Q
+            P, D = self.rff(ch[0])
+            return -P, D
         if k == z3.Z3_OP_MUL:
-            P, Q = self.rf(ch[0])
+            P, D = self.rff(ch[0])
             for c in ch[1:]:
-                P2, Q2 = self.rf(c)
-                P, Q = _cancel(P * P2, Q * Q2)
-            return P, Q
+                P2, D2 = self.rff(c)
+                P, D = self._mul(P, D, P2, D2)
+            return P, D
         if k == z3.Z3_OP_DIV:
-            P, Q = self.rf(ch[0])
-            P2, Q2 = self.rf(ch[1])
+            P, D = self.rff(ch[0])
+            P2, D2 = self.rff(ch[1])
             if P2.is_zero():
                 return self.atom(e), one
             if not P2.is_const():
                 self.divisors.setdefault(P2.key(), P2)
-            return _cancel(P * Q2, Q * P2)
+            return self._divide(P, D, P2, D2)
         if k == z3.Z3_OP_POWER and z3.is_rational_value(ch[1]) and ch[1].denominator_as_long() == 1 and 0 <= ch[1].numerator_as_long() <= 8:
             n = ch[1].numerator_as_long()
-            P, Q = self.rf(ch[0])
-            RP, RQ = one, one
+            P, D = self.rff(ch[0])
+            RP, RD = Poly.const(1), Den()
             for _ in range(n):
-                RP, RQ = RP * P, RQ * Q
-            return RP, RQ
+                RP, RD = self._mul(RP, RD, P, D)
+            return RP, RD
         if k == z3.Z3_OP_TO_REAL and z3.is_int_value(ch[0]):
             return Poly.const(ch[0].as_long()), one
         return self.atom(e), one
+
+    def reduce_sqrt(self, P, Q):
+        """replace even powers of sqrt auxiliaries y (y*y == x asserted on the path) by powers of x in P (P/Q given)"""
+        if not self.sqrt_sq:
+            return P, Q
+        for _ in range(6):
+            target = None
+            for m in P.t:
+                for k, e in m:
+                    if e >= 2 and k in self.sqrt_sq:
+                        target = k
+                        break
+                if target is not None:
+                    break
+            if target is None:
+                return P, Q
+            Px, Qx = self.rf(self.sqrt_sq[target])
+            K = max((dict(m).get(target, 0) // 2) for m in P.t)
+            powsP = [Poly.const(1)]
+            powsQ = [Poly.const(1)]
+            for _i in range(K):
+                powsP.append(powsP[-1] * Px)
+                powsQ.append(powsQ[-1] * Qx)
+            newP = Poly()
+            for m, c in P.t.items():
+                d = dict(m)
+                e = d.get(target, 0)
+                h = e // 2
+                if e % 2:
+                    d[target] = 1
+                else:
+                    d.pop(target, None)
+                mono = Poly({tuple(sorted(d.items())): c})
+                newP = newP + mono * powsP[h] * powsQ[K - h]
+            P, Q = newP, Q * powsQ[K]
+        return P, Q
 
     @staticmethod
     def _add(P, Q, P2, Q2):
@@ -278,6 +487,7 @@ class Rewriter:
 
     def __init__(self, defs=None):
         self.N = Normalizer(defs)
+        self.odd_sign = False  # sign of P/Q from P * (odd-exponent factors of Q) instead of P * Q
         self.expand = defs is not None
         self.memo = {}
         self.divmemo = {}
@@ -299,9 +509,13 @@ class Rewriter:
         if k in _ARITH_CMP and len(ch) == 2 and z3.is_real(ch[0]) and (self.expand or _has_div(ch[0], self.divmemo) or _has_div(ch[1], self.divmemo)):
             # If-terms inside arithmetic stay opaque; that is fine
             try:
-                P1, Q1 = self.N.rf(ch[0])
-                P2, Q2 = self.N.rf(ch[1])
-                P, Q = Normalizer._add(P1, Q1, -P2, Q2)
+                P1, D1 = self.N.rff(ch[0])
+                P2, D2 = self.N.rff(ch[1])
+                P, D = self.N._addf(P1, D1, -P2, D2)
+                if self.N.sqrt_sq and any(kk in self.N.sqrt_sq for kk in P.atoms()):
+                    P, Q = self.N.reduce_sqrt(P, D.poly())
+                else:
+                    Q = D.odd_poly() if self.odd_sign else D.poly()
                 op = _ARITH_CMP[k]
                 self.stats["atoms_rewritten"] += 1
                 if op in ("==", "!="):
